@@ -202,7 +202,53 @@ func c33AliasEvents() []c33Event {
 	return ev
 }
 
-var c33BlockGas = []uint64{0, 1, 100}
+var c33BlockGas = []uint64{0, 1, 100, 1 << 32, 1<<63 - 1}
+
+// ---- width-edge programs (part "edge") -------------------------------------------------------
+// `ecalli imm ; trap` with immediates at the width edges, and `store_imm_u8 [addr] ; trap` with
+// addresses at the 2^16 / 2^32 edges. Placed in the outer data page behind the other blobs.
+
+const c33OffEdge = 0x400 // + 0x20 per blob
+
+type c33EdgeProg struct {
+	Name string
+	Blob []byte
+}
+
+func c33EdgeProgs() []c33EdgeProg {
+	var out []c33EdgeProg
+	imms := [][]byte{{}, {0x01}, {0x7F}, {0xFF, 0x00}, {0x00, 0x01}, {0x2C, 0x01}, {0xFF, 0xFF, 0x00}, {0x00, 0x00, 0x01}, {0xFF, 0xFF, 0xFF, 0x7F},
+		{0x00, 0x00, 0x00, 0x80}, {0xFF, 0xFF, 0xFF, 0xFF}, {0xFF}}
+	for _, im := range imms {
+		var a hcAsm
+		a.EcalliRaw(im...)
+		a.Trap()
+		out = append(out, c33EdgeProg{fmt.Sprintf("ecalli(%#x)", c33SignExt(im)), a.Blob()})
+	}
+	for _, addr := range []uint32{0xFFFF, 0x10000, 0x10FFF, 0xFFFFF000, 0xFFFFFFFF} {
+		var a hcAsm
+		a.emit(30, 4, byte(addr), byte(addr>>8), byte(addr>>16), byte(addr>>24), 0x01)
+		a.Trap()
+		out = append(out, c33EdgeProg{fmt.Sprintf("store[%#x]", addr), a.Blob()})
+	}
+	return out
+}
+
+// c33EdgeEvents: machine(E_i) for every edge program, then invoke(0) with block gas 100, 2^32, 2^63-1.
+func c33EdgeEvents() (ev []c33Event, nProgs int) {
+	progs := c33EdgeProgs()
+	for i, p := range progs {
+		e := c33Event{Op: MachineOp, Name: "machine(" + p.Name + ",pc=0)", Blk: -1}
+		e.R[0], e.R[1], e.R[2] = c33Data+c33OffEdge+0x20*uint64(i), uint64(len(p.Blob)), 0
+		ev = append(ev, e)
+	}
+	for _, bi := range []int{2, 3, 4} {
+		e := c33Event{Op: InvokeOp, Name: fmt.Sprintf("invoke(0,gas=%d)", c33BlockGas[bi]), Blk: bi}
+		e.R[0], e.R[1] = 0, c33Data+c33OffBlock
+		ev = append(ev, e)
+	}
+	return ev, len(progs)
+}
 
 func c33Block(gas uint64) []byte {
 	b := hcLE(gas, 8)
@@ -231,6 +277,12 @@ func c33Build() *c33World {
 		hcPoke(w.Mem, c33Data+c33BlobOff[i], b)
 	}
 	hcPoke(w.Mem, c33Data+c33OffPoke, []byte{0xD0, 0xD1, 0xD2, 0xD3, 0xD4, 0xD5, 0xD6, 0xD7})
+	for i, p := range c33EdgeProgs() {
+		if len(p.Blob) > 0x20 {
+			panic("c33: edge blob too long")
+		}
+		hcPoke(w.Mem, c33Data+c33OffEdge+0x20*uint64(i), p.Blob)
+	}
 	w.Args = HostCallArgs{RefineArgs: RefineArgs{IntegratedPVMMap: IntegratedPVMMap{}}, Program: c33OuterProgram()}
 	return w
 }
@@ -741,7 +793,9 @@ func c33RunPart(r *vlib.Run, part string, evs []c33Event, hist []int, check bool
 			r.Class("op=" + opn + " not-judged")
 			continue
 		}
-		if part == "alias" {
+		if part == "edge" {
+			r.Class(fmt.Sprintf("edge %s model=%s", e.Name, want.Branch))
+		} else if part == "alias" {
 			r.Class(fmt.Sprintf("alias op=%s model=%s", opn, want.Branch))
 		} else if part == "table" {
 			live := len(model.M)
@@ -790,7 +844,13 @@ func c33RunPart(r *vlib.Run, part string, evs []c33Event, hist []int, check bool
 				okW8 = w.Regs[8] >= want.W8/ZP*ZP && w.Regs[8] <= want.W8
 			}
 			if !okW8 {
-				bad("wrong-result", key, fmt.Sprintf("ω8 = %#x, model %#x", w.Regs[8], want.W8))
+				k8 := key
+				if want.W7 == INNERHOST && want.W8 >= 1<<56 {
+					k8 = "op=invoke inner host-call id>=2^56"
+				} else if want.W7 == INNERHOST && want.W8 >= 256 {
+					k8 = "op=invoke inner host-call id>=256"
+				}
+				bad("wrong-result", k8, fmt.Sprintf("ω8 = %#x, model %#x", w.Regs[8], want.W8))
 			}
 		} else if e.Op == InvokeOp && w.Regs[8] != preRegs[8] {
 			bad("register-changed", key, "ω8 changed although the inner exit carries no value")
@@ -850,6 +910,9 @@ func TestVerif_C33(t *testing.T) {
 	if r.IsReplay(&rc) {
 		if rc.Part == "table" {
 			c33RunPart(r, "table", c33TableEvents(), rc.Hist, true)
+		} else if rc.Part == "edge" {
+			eev, _ := c33EdgeEvents()
+			c33RunPart(r, "edge", eev, rc.Hist, true)
 		} else if rc.Part == "alias" {
 			// process-lifetime state is part of this sub-exploration: replay every alias history that
 			// precedes the recorded one in enumeration order (unchecked), then the recorded one
@@ -919,6 +982,23 @@ func TestVerif_C33(t *testing.T) {
 					c33RunPart(r, "table", tev, append(append([]int(nil), h...), pi), true)
 				}
 			})
+		}
+	}
+
+	// width edges: every edge program created and invoked with every block gas
+	{
+		eev, np := c33EdgeEvents()
+		eidx := uint64(1 << 45)
+		for i := 0; i < np; i++ {
+			for j := np; j < len(eev); j++ {
+				eidx++
+				if !r.Mine(eidx) {
+					continue
+				}
+				r.Space(2)
+				c33RunPart(r, "edge", eev, []int{i}, true)
+				c33RunPart(r, "edge", eev, []int{i, j}, true)
+			}
 		}
 	}
 
